@@ -28,6 +28,44 @@ theorem superset_sound_rules (a b h : Str)
     (hsup : isSupersetOf (new a) (new b) = true) (hmem : isMember (new b) h = true) :
     isMember (new a) h = true := superset_sound _ _ _ hsup hmem
 
+/-- The superset judgement is reflexive: a proxy whose pattern *is* the broker's allowed pattern is accepted. -/
+theorem superset_refl (m : Matcher) : isSupersetOf m m = true := by
+  unfold isSupersetOf
+  cases m.exact <;> simp [hasSuffix_iff]
+
+/-- … and transitive (a preorder on matchers). -/
+theorem superset_trans (a b c : Matcher) (h1 : isSupersetOf a b = true) (h2 : isSupersetOf b c = true) :
+    isSupersetOf a c = true := by
+  unfold isSupersetOf at *
+  cases ha : a.exact <;> cases hb : b.exact <;> cases hc : c.exact <;> simp only [ha, hb, hc] at * <;>
+    simp only [hasSuffix_iff, beq_iff_eq, Bool.false_and, Bool.true_and,
+      Bool.false_eq_true, if_true, if_false] at *
+  · exact h1.trans h2
+  · exact h1.trans h2
+  · rw [← h2]; exact h1
+  · rw [h1, h2]
+
+/-- **The judgement is also complete**: whenever `m` really accepts every hostname `o` accepts (over all
+byte strings), `IsSupersetOf` says so — the broker rejects no proxy whose pattern does cover its own. -/
+theorem superset_complete (m o : Matcher) (h : ∀ s, isMember o s = true → isMember m s = true) :
+    isSupersetOf m o = true := by
+  unfold isSupersetOf
+  unfold isMember at h
+  cases hm : m.exact <;> cases ho : o.exact <;> simp only [hm, ho] at * <;>
+    simp only [hasSuffix_iff, beq_iff_eq, Bool.false_and, Bool.true_and,
+      Bool.false_eq_true, if_true, if_false] at *
+  · exact h _ (List.suffix_refl _)
+  · exact h _ rfl
+  · have h1 := h o.suffix (List.suffix_refl _)
+    have h2 := h (0 :: o.suffix) (List.suffix_cons _ _)
+    rw [← h1] at h2
+    exact absurd (congrArg List.length h2) (by simp)
+  · exact (h _ rfl).symm
+
+/-- Exact characterisation of `IsSupersetOf` as inclusion of the accepted hostname sets. -/
+theorem superset_iff (m o : Matcher) :
+    isSupersetOf m o = true ↔ ∀ s, isMember o s = true → isMember m s = true :=
+  ⟨fun h s hs => superset_sound m o s h hs, superset_complete m o⟩
 /-- **Broker check is sound.** A poll that passes `CheckProxyRelayPattern` comes from a proxy whose
 (declared, or for legacy proxies presumed) pattern accepts every hostname the broker's allowed
 pattern accepts — so no relay inside the broker's allowed pattern is outside the proxy's consent. -/
